@@ -15,7 +15,9 @@ type SetField struct {
 	Right sql.Expression
 }
 
-func NewSetField(left, right sql.Expression) sql.Expression { return &SetField{Left: left, Right: right} }
+func NewSetField(left, right sql.Expression) sql.Expression {
+	return &SetField{Left: left, Right: right}
+}
 
 // Eval returns a copy of the row with the field replaced.
 func (s *SetField) Eval(r sql.Row) (any, error) {
